@@ -204,6 +204,8 @@ pub struct Spelling {
     pub op_alias: Vec<bool>,
     /// write `hostname: null` / omit for an absent scope (YAML/JSON only; TOML always omits)
     pub explicit_null: Vec<bool>,
+    /// `fixed` / `playerfill` instead of `any` / `player_fill` (config.rs aliases of `StrategyAdapter`)
+    pub strategy_alias: bool,
 }
 
 impl Spelling {
@@ -220,6 +222,7 @@ impl Spelling {
             field_alias: (0..n_rules).map(|_| rng.chance(1, 2)).collect(),
             op_alias: (0..n_rules).map(|_| rng.chance(1, 3)).collect(),
             explicit_null: (0..filters.len()).map(|_| rng.chance(1, 3)).collect(),
+            strategy_alias: rng.chance(1, 3),
         }
     }
 }
@@ -232,6 +235,15 @@ fn kind_name(f: &FilterKindSpec, alias: bool) -> &'static str {
         (FilterKindSpec::PlayerAllow(_), true) => "playerallow",
         (FilterKindSpec::PlayerBlock(_), false) => "player_block",
         (FilterKindSpec::PlayerBlock(_), true) => "playerblock",
+    }
+}
+
+fn strategy_name(s: &StrategySpec, alias: bool) -> &'static str {
+    match (s, alias) {
+        (StrategySpec::Any, false) => "any",
+        (StrategySpec::Any, true) => "fixed",
+        (StrategySpec::PlayerFill { .. }, false) => "player_fill",
+        (StrategySpec::PlayerFill { .. }, true) => "playerfill",
     }
 }
 
@@ -326,9 +338,9 @@ pub fn emit_yaml(filters: &[FilterSpec], strategy: &StrategySpec, sp: &Spelling)
         }
     }
     match strategy {
-        StrategySpec::Any => o.push_str("  strategy: any\n"),
+        StrategySpec::Any => o.push_str(&format!("  strategy: {}\n", strategy_name(strategy, sp.strategy_alias))),
         StrategySpec::PlayerFill { field, max_players } => {
-            o.push_str("  strategy:\n    player_fill:\n");
+            o.push_str(&format!("  strategy:\n    {}:\n", strategy_name(strategy, sp.strategy_alias)));
             o.push_str(&format!("      field: {}\n", q(field)));
             o.push_str(&format!("      max_players: {max_players}\n"));
         }
@@ -343,13 +355,13 @@ pub fn emit_toml(filters: &[FilterSpec], strategy: &StrategySpec, sp: &Spelling)
     let mut o = String::new();
     o.push_str("# generated by vp-route (C18)\naddress = \"127.0.0.1:0\"\n\n[adapters]\n");
     if let StrategySpec::Any = strategy {
-        o.push_str("strategy = \"any\"\n");
+        o.push_str(&format!("strategy = {}\n", q(strategy_name(strategy, sp.strategy_alias))));
     }
     if filters.is_empty() {
         o.push_str("filter = []\n");
     }
     if let StrategySpec::PlayerFill { field, max_players } = strategy {
-        o.push_str("\n[adapters.strategy.player_fill]\n");
+        o.push_str(&format!("\n[adapters.strategy.{}]\n", strategy_name(strategy, sp.strategy_alias)));
         o.push_str(&format!("field = {}\nmax_players = {max_players}\n", q(field)));
     }
     let mut rule_no = 0usize;
@@ -455,9 +467,9 @@ pub fn emit_json(filters: &[FilterSpec], strategy: &StrategySpec, sp: &Spelling)
         chain.push(Value::Object(m));
     }
     let strat = match strategy {
-        StrategySpec::Any => json!("any"),
+        StrategySpec::Any => json!(strategy_name(strategy, sp.strategy_alias)),
         StrategySpec::PlayerFill { field, max_players } => {
-            json!({ "player_fill": { "field": field, "max_players": max_players } })
+            json!({ strategy_name(strategy, sp.strategy_alias): { "field": field, "max_players": max_players } })
         }
     };
     serde_json::to_string_pretty(&json!({
